@@ -255,8 +255,9 @@ def check(model, rep):
     robot = model.cls(ROBOT, 'Robot')
     j = robot.methods.get('jacobian')
     r = [n for n in walk_own(j.node) if isinstance(n, ast.Return)]
-    ok = len(r) == 1 and src(r[0].value).replace(' ', '') == 'np.linalg.pinv(self.inverseJacobian(*args,**kwargs))'
-    rep.ob('R11.4', j, 'jacobian = pinv(inverseJacobian(...)) with the same arguments', ok, 'Robot.jacobian is %s' % (src(r[0].value) if r else '?'))
+    got_j = Inliner(j).text(r[0].value, canon=False) if len(r) == 1 else '?'             # temporaries resolved
+    ok = got_j == 'np.linalg.pinv(self.inverseJacobian(*args,**kwargs))'
+    rep.ob('R11.4', j, 'jacobian = pinv(inverseJacobian(...)) with the same arguments', ok, 'Robot.jacobian is %s' % got_j)
     from .common_ops import pinv_cutoff
     for c in [c for fi_ in (j,) + tuple(sp.methods[m] for m in ('staticForces', 'staticForcesBody', 'carryMassCalc') if m in sp.methods)
               for c in walk_own(fi_.node) if isinstance(c, ast.Call) and src(c.func).endswith('pinv')]:
